@@ -3,6 +3,7 @@
 from __future__ import annotations
 
 import ast
+import re
 
 from ..cfg import build_cfg, calls_in, node_calls
 from ..core import Ctx, property_info, rule, share
@@ -144,7 +145,8 @@ def _marker_obligations(ctx: Ctx) -> None:
             comp_ok = isinstance(leaf, ast.ListComp) and len(leaf.generators) == 1 and bool(leaf.generators[0].ifs) and any(
                 isinstance(c, ast.Compare) and isinstance(c.ops[0], (ast.IsNot, ast.NotEq)) and "clazz" in {unparse(c.left), unparse(c.comparators[0])} for c in leaf.generators[0].ifs)
             src_forms = forms(lm, n, leaf.generators[0].iter) if comp_ok else set()
-            ok = ok and comp_ok and A(f"self.xsi_cache[{L(lm, tgt.slice)}]") in {x for x in src_forms} | {A("self.xsi_cache[_]")} and any(x == "self.xsi_cache[_]" for x in src_forms)
+            # the filtered list is the old entry read from the cache under a key: self.xsi_cache[k] / self.xsi_cache.get(k[, default])
+            ok = ok and comp_ok and any(re.fullmatch(r"self\.xsi_cache(\[_\]|\.get\(_(,[^()]*)?\))", x) for x in src_forms)
         ctx.ob("local_names_match evicts exactly the unbindable class: the new entry is the old entry filtered by `is not clazz`", ok, at=lm, node=st, construct="eviction filter",
                msg="the eviction drops other classes that share the qualified name: after one failing decode a shared context no longer finds a valid model by qname")
     b = ctx.repo.func("xsdata.formats.dataclass.context:XmlContext.build_xsi_cache")
